@@ -412,7 +412,7 @@ def units(tier):
     us = []
     for which, n in (('moving', 700), ('pattern', 500), ('pad', 300), ('extract', 300), ('peaks', 3000), ('width', 3000)):
         for i in range(2 if which in ('moving', 'pattern', 'peaks') else 1):
-            us.append({'name': 'gen-%s-%d' % (which, i), 'fn': 'unit_generated', 'kwargs': {'which': which, 'n': n if q else n * 15}})
+            us.append({'name': 'gen-%s-%d' % (which, i), 'fn': 'unit_generated', 'kwargs': {'which': which, 'n': n if q else n * 40}})
     ns = 4
     for s in range(ns):
         us.append({'name': 'peaks-exhaustive-%d' % s, 'fn': 'unit_peaks_exhaustive', 'kwargs': {'maxlen': 6 if q else 8, 'alphabet': 4, 'shard': s, 'nshards': ns}})
